@@ -27,29 +27,32 @@ def skip_length(ctx, prog, rule):
         buf = R.operand(t["args"][1])
         for sub in leaves(buf):
             if sub[0] == "call" and sub[1].endswith("from_elem"):
-                n = strip_casts(sub[2][1])
-                # n = ok(checked_sub(header.packet_length, SIZE)) | header.packet_length - SIZE (guarded) | saturating_sub
-                desc = tree_str(strip_deep(n))
-                kind = None
-                size = None
-                guarded = False
-                x = strip(n)
-                if x[0] == "call" and x[1].endswith("checked_sub"):
-                    base, size = strip(x[2][0]), const_val(x[2][1])
-                    guarded = True
-                elif x[0] == "call" and x[1].endswith("saturating_sub"):
-                    base, size = strip(x[2][0]), const_val(x[2][1])
-                    guarded = True
-                elif x[0] == "binop" and x[1] == "Sub":
-                    base, size = strip(x[2]), const_val(x[3])
-                else:
-                    base = x
-                if base[0] == "field" and base[2] == "packet_length":
-                    hdr = strip(base[1])
-                    if hdr[0] == "field" and "." in hdr[2]:
-                        kind = hdr[2].split(".")[0]
-                if kind:
-                    found[kind] = (size, guarded, desc, bi)
+                n0 = strip_casts(sub[2][1])
+                # one alternative per packet kind when the skip is shared by several arms
+                for n in (n0[1] if n0[0] == "phi" else (n0,)):
+                  n = strip_casts(n)
+                  # n = ok(checked_sub(header.packet_length, SIZE)) | header.packet_length - SIZE (guarded) | saturating_sub
+                  desc = tree_str(strip_deep(n))
+                  kind = None
+                  size = None
+                  guarded = False
+                  x = strip(n)
+                  if x[0] == "call" and x[1].endswith("checked_sub"):
+                      base, size = strip(x[2][0]), const_val(x[2][1])
+                      guarded = True
+                  elif x[0] == "call" and x[1].endswith("saturating_sub"):
+                      base, size = strip(x[2][0]), const_val(x[2][1])
+                      guarded = True
+                  elif x[0] == "binop" and x[1] == "Sub":
+                      base, size = strip(x[2]), const_val(x[3])
+                  else:
+                      base = x
+                  if base[0] == "field" and base[2] == "packet_length":
+                      hdr = strip(base[1])
+                      if hdr[0] == "field" and "." in hdr[2]:
+                          kind = hdr[2].split(".")[0]
+                  if kind:
+                      found[kind] = (size, guarded, desc, bi)
     for kind, want in sizes.items():
         got = found.get(kind)
         ok = got is not None and got[0] == want and got[1]
@@ -114,17 +117,18 @@ def stream_loop_shape(ctx, prog, rule):
     ctx.ob(rule, "stream-sizes/advance", oks, "buffer_sizes[i] <- u16::from_le_bytes(2 bytes read from the packet)")
     # payload: buffer.resize(size_i) ; read_exact(buffer) ; byte_streams[i].append(buffer) with the same i
     okp = False
+    import elems
     for bi, t in f.calls(lambda c, t: c == "bs_read::ByteStreamReadBuffer::append"):
-        tgt = strip(R.operand(t["args"][0]))
+        te = elems.elem_of(R.operand(t["args"][0]))
         data = strip(R.operand(t["args"][1]))
-        if tgt[0] == "call" and self_field(tgt[2][0]) == "byte_streams" and self_field(data) == "buffer":
-            idx = strip(tgt[2][1])
-            # the resize in the same loop uses the element paired with idx (enumerate)
-            for b2, t2 in f.calls(lambda c, t: c.endswith("Vec::<T, A>::resize")):
-                if self_field(R.operand(t2["args"][0])) == "buffer":
-                    n = strip(R.operand(t2["args"][1]))
-                    okp = (idx[0] == "field" and n[0] == "field" and idx[2] == "0" and n[2] == "1" and idx[1] == n[1]
-                           and "enumerate" in tree_str(idx[1]) and "arg1.buffer_sizes" in tree_str(idx[1]) and f.dominates(b2, bi))
+        if te is None or self_field(strip(te[0])) != "byte_streams" or te[1] or self_field(data) != "buffer":
+            continue
+        # the resize before it uses the element of buffer_sizes at the same position
+        for b2, t2 in f.calls(lambda c, t: c.endswith("Vec::<T, A>::resize")):
+            if self_field(R.operand(t2["args"][0])) == "buffer":
+                se = elems.elem_of(R.operand(t2["args"][1]))
+                okp = (se is not None and self_field(strip(se[0])) == "buffer_sizes" and not se[1]
+                       and elems.same_position(se, te) and f.dominates(b2, bi))
     ctx.ob(rule, "stream-payload/advance", okp, "for (i, size) in buffer_sizes.enumerate(): buffer.resize(size); read_exact(buffer); byte_streams[i].append(buffer)")
     reads = calls_where(f, lambda c, t, R: c.endswith("Read::read_exact") and self_field(R.operand(t["args"][1])) == "buffer" or (c.endswith("Read::read_exact") and "arg1.buffer" in tree_str(R.operand(t["args"][1]))))
     ctx.ob(rule, "stream-payload-read/advance", len(reads) == 1, "exactly one read_exact into self.buffer per stream (%d)" % len(reads), nontrivial=False)
